@@ -1561,7 +1561,7 @@ func runNode(cf *config, path []int, shard, nshards int, only []query) (fs []fou
 		stateKey := func() string { return fmt.Sprintf("%s#%s#%v", h.tm.key(), h.um.key(), h.twins[3].indexed) }
 		before := ""
 		for k, o := range path {
-			h.rec = k == len(path)-1
+			h.rec = k == len(path)-1 || cf == cfgA // part A has no prefix histories: every operation is checked here
 			before = stateKey()
 			op := cf.ops[o]
 			h.apply(op, h.tm, h.twins, false)
